@@ -440,43 +440,158 @@ MATCH_DECODERS = ['BSC_read', 'BSC_pread', 'BSC_lseek', 'BSC_kill', 'BSC_mmap', 
                   'MSC_mach_vm_allocate_trap', 'BSC_getpid', 'BSC_ioctl', 'BSC_write', 'BSC_sendto']
 
 
+LONG_DECODERS = ['BSC_pread', 'BSC_read', 'MSC_mach_vm_allocate_trap', 'BSC_mmap', 'BSC_lseek', 'BSC_open', 'BSC_rename']
+STD_LOOKUPS = [['/a', 1], ['/b', 2], ['/c', 3], ['/d', 4], ['/e', 5], ['/f', 6]]      # those `good_args` searches with
+
+
+def prop_part(prop, text):
+    """The part of a rendering the property speaks about: C09 the call part `name(p0, ...)`, C10 the result part."""
+    sp = D.split_call(text) if text is not None and not text.startswith('!') else None
+    if sp is None:
+        return text
+    return text[:len(text) - len(sp[2])] if prop == 'C09' else sp[2]
+
+
+def undecoded_filler():
+    """A code of the bundled table that no handler is registered for (feeding it costs no decoder call)."""
+    hn = set(D.all_handler_names())
+    return next(n for n in sorted(IDS) if n not in hn and n != 'VFS_LOOKUP')
+
+
+_FILLERS = {}
+
+
+def filler_events(tid, n):
+    """n pairwise distinct NONE-qualified records of thread `tid`: every 64th a MACH_SCHED (a decodable single), the others
+    of an undecoded code; word 0 is non-zero and no word repeats a START / END word used by the long-window search, so a
+    window that lost its START or its END to one of them shows it."""
+    have = _FILLERS.setdefault(tid, [])
+    und = IDS[undecoded_filler()]
+    sched = IDS['MACH_SCHED']
+    for i in range(len(have), n):
+        if i % 64 == 63:
+            r = impl.record_args(1000 + i, [0, 0x100000 + i, i % 2, 1], tid, sched)
+        else:
+            r = impl.record_args(1000 + i, [0x5000000 + i, 0x6000000 + i, 0x7000000 + i, 0x8000000 + i], tid, und)
+        have.append(from_kd_buf(r))
+    return have[:n]
+
+
+def feed_collect(events, eid, codes=None, keep_handlers=None):
+    """Feed the records to a fresh real TracesParser; the traces whose first record carries code `eid`, as texts.
+    A record whose own decoder raises is skipped (the record is a filler here: the search is not about its decoder), unless it
+    is a record of `eid`: then the exception is the answer."""
+    parser = TracesParser(dict(CODES) if codes is None else codes, {}, {})
+    out = []
+    for ev in events:
+        try:
+            t = parser.feed(ev)
+        except Exception as e:
+            if ev.eventid == eid:
+                out.append('!' + core.err_name(e))
+            continue
+        if t is not None and t.ktraces and t.ktraces[0].eventid == eid:
+            try:
+                out.append(str(t))
+            except Exception as e:
+                out.append('!' + core.err_name(e))
+    return out
+
+
+def isolated_text(name, start, end, tid, lookups):
+    """The decoder called directly on [START, lookups..., END] (no pairing involved)."""
+    c = {'name': name, 'start': start, 'end': end, 'tid': tid, 'lookups': lookups, 'gs': {}, 'tp': {}, 'tn': {}}
+    try:
+        return D.text_of(D.impl_fn(c))
+    except Exception as e:
+        return '!' + core.err_name(e)
+
+
+def long_window_events(name, start, end, tid, lookups, nested, layout):
+    """START, `nested` filler records, END of one thread; the looked-up paths right behind the START (layout 'early') or
+    right before the END (layout 'late': behind all fillers)."""
+    eid = IDS[name]
+    lk = []
+    for i, (path, vn) in enumerate(lookups):
+        lk += [from_kd_buf(r) for r in D.lookup_events(path, vn, tid, 10 + 8 * i)]
+    fill = filler_events(tid, nested)
+    evs = [from_kd_buf(impl.record_args(1, start, tid, eid | START))]
+    evs += (lk + fill) if layout == 'early' else (fill + lk)
+    evs.append(from_kd_buf(impl.record_args(10 ** 7, end, tid, eid | END)))
+    return evs
+
+
+def long_window_check(prop, name, start, end, tid, lookups, nested, layout):
+    """None, or the description of the failure."""
+    eid = IDS[name]
+    got = [prop_part(prop, t) for t in feed_collect(long_window_events(name, start, end, tid, lookups, nested, layout), eid)]
+    exp = [prop_part(prop, isolated_text(name, start, end, tid, lookups))]
+    if got != exp:
+        return ('%s enclosing %d other records of its thread (lookups %s): %s part(s) %r, from its START / lookups / END '
+                'alone %r' % (name, nested, layout, 'call' if prop == 'C09' else 'result', got, exp))
+    return None
+
+
+def long_window_search(rep, rng, tier, prop, sec):
+    """A call that encloses thousands of records of its thread is still rendered from its own START, its own lookups and its
+    own END.  Lengths from tools/kdv/mined.py (around 1024 and 4096; on a changed source / in the thorough tier around every
+    number the pairing and reader files and the changed files mention, and the powers of two up to 2^16)."""
+    from . import mined
+    changed = mined.changed_files()
+    wide = tier != 'quick' or bool(changed)
+    lengths = mined.window_lengths(tier, changed)
+    budget = 6000000 if wide else 260000                 # records fed in all
+    tid = 11
+    spent = 0
+    done = skipped = 0
+    bad = set()
+    for li, nested in enumerate(lengths):
+        # every decoder for windows up to ~4100 records, two of them (rotating) beyond
+        names = LONG_DECODERS if nested <= 4200 else [LONG_DECODERS[(li + k) % len(LONG_DECODERS)] for k in (0, 3)]
+        for name in names:
+            base = good_args(name)
+            if base is None:
+                continue
+            start = [x + 3 for x in base] if name not in ('BSC_open', 'BSC_rename') else list(base)
+            if isolated_text(name, start, [0, 1, 0, 0], tid, STD_LOOKUPS[:2]).startswith('!'):
+                start = list(base)
+            end = [0, 4592, 0, 0] if (li + len(name)) % 3 else [13, 4592, 0, 0]
+            pathy = isolated_text(name, start, end, tid, STD_LOOKUPS[:2]) != isolated_text(name, start, end, tid, [])
+            lookups = [['/long/window/one', 0x41], ['/long/window/two-%d' % nested, 0x42]] if pathy else []
+            for layout in (('late', 'early') if pathy and nested <= 4200 else ('late',)):
+                if spent + nested > budget:
+                    skipped += 1
+                    continue
+                spent += nested
+                sec['cases'] += 1
+                done += 1
+                why = long_window_check(prop, name, start, end, tid, lookups, nested, layout)
+                if why is None:
+                    sec['distinct_nontrivial'] += 1
+                elif (name, layout) not in bad:
+                    bad.add((name, layout))
+                    rep.add_failure('matching:%s:long-window' % prop, why,
+                                    {'section': 'matching-records', 'kind': 'long-window', 'decoder': name, 'nested': nested,
+                                     'start': start, 'end': end, 'tid': tid, 'lookups': lookups, 'layout': layout})
+    sec['dist']['long-windows'] = done
+    sec['dist']['long-windows-beyond-budget'] = skipped
+    sec['dist']['longest-window'] = max([n for n in lengths] or [0])
+
+
 def matching_search(rep, rng, tier, prop, decoders=None):
     """Every emitted syscall trace must be rendered from the most recent START of its thread and code that is
     still open, and from the END that closed it; nothing else in the stream may influence it."""
     sec = rep.section('matching-records')
     sec['rule'] = ('failing-input search on the real pipeline: 2-3 threads, syscalls whose START never ends, is repeated, or '
                    'encloses other records (interrupt-like singles, other syscalls), every START/END with its own words; each '
-                   'trace text must equal the isolated rendering of its matching (START, END) pair')
+                   'trace text must equal the isolated rendering of its matching (START, END) pair; long windows: %s enclosing n '
+                   'pairwise distinct records of their thread for the lengths n of mined.window_lengths (around 1024 and 4096; '
+                   'on a changed source or in the thorough tier around every number the pairing / reader / changed files '
+                   'mention and the powers of two up to 2^16), path decoders with their lookups behind the START and behind '
+                   'the fillers' % ', '.join(LONG_DECODERS))
     n = 150 if tier == 'quick' else 4000
     names = decoders or MATCH_DECODERS
-    # long windows: a call enclosing more than a thousand records of its thread is still rendered from its own START
-    for name, nested in (('BSC_pread', 1023), ('MSC_mach_vm_allocate_trap', 1500), ('BSC_read', 1024)):
-        s = Stream(rng)
-        a = [x + 3 for x in (good_args(name) or [1, 2, 3, 4])]
-        e = [0, 4592, 0, 0]
-        s.ev(name, START, 11, a)
-        for _ in range(nested):
-            s.ev('MACH_SCHED', NONE, 11, [0, 0x1111, 0x2222, 0x3333])
-        s.ev(name, END, 11, e)
-        case = make_case_from(s.recs)
-        outs, err, parser = run_traces(case)
-        sec['cases'] += 1
-        def part0(t):
-            sp = D.split_call(t) if not t.startswith('!') else None
-            if sp is None:
-                return t
-            return t[:len(t) - len(sp[2])] if prop == 'C09' else sp[2]
-        c = {'name': name, 'start': a, 'end': e, 'tid': 11, 'lookups': [], 'gs': {}, 'tp': {}, 'tn': {}}
-        full = D.text_of(D.impl_fn(c))
-        callname = full.split('(')[0]
-        got = [part0(x) for x in (hs_decode(o['text']) for o in outs) if x.split('(')[0] == callname]
-        exp = [part0(full)]
-        if got != exp or err != '-':
-            rep.add_failure('matching:%s:long-window' % prop,
-                            '%s enclosing %d records: traces %r, expected %r (exception %s)' % (name, nested, got, exp, err),
-                            {'section': 'matching-records', 'decoder': name, 'nested': nested, 'start': a, 'end': e})
-        else:
-            sec['distinct_nontrivial'] += 1
+    long_window_search(rep, rng, tier, prop, sec)
     for _ in range(n):
         s = Stream(rng)
         tids = [11, 12, 13][:rng.choice([1, 1, 2, 3])]
@@ -507,36 +622,8 @@ def matching_search(rep, rng, tier, prop, decoders=None):
         case = make_case_from(s.recs)
         if rng.random() < 0.5:                         # the parser is built with the threads already in its table
             case['prepop'] = {str(t): 40 + j for j, t in enumerate(tids)}
-        outs, err, parser = run_traces(case)
+        got, exp, err = matching_stream_check(case, log, prop)
         sec['cases'] += 1
-        # expected: declarative matching
-        expected = []
-        for i, (kind, name, tid, words) in enumerate(log):
-            if kind == 'N':
-                expected.append(None)
-                continue
-            if kind != 'E':
-                continue
-            j = None
-            for m in range(i - 1, -1, -1):
-                if log[m][1] == name and log[m][2] == tid and log[m][0] in 'SE':
-                    j = m if log[m][0] == 'S' else None
-                    break
-            if j is None:
-                continue
-            c = {'name': name, 'start': log[j][3], 'end': words, 'tid': tid, 'lookups': [], 'gs': {}, 'tp': {}, 'tn': {}}
-            try:
-                expected.append(D.text_of(D.impl_fn(c)))
-            except Exception as e:
-                expected.append('!' + core.err_name(e))
-        def part(t):
-            # C09 looks at the call part only, C10 at the result part only
-            sp = D.split_call(t) if not t.startswith('!') else None
-            if sp is None:
-                return t
-            return t[:len(t) - len(sp[2])] if prop == 'C09' else sp[2]
-        got = [part(hs_decode(o['text'])) for o in outs if o['name'] != 'MACH_SCHED']
-        exp = [part(e) for e in expected if e is not None]
         if got != exp or err != '-':
             sec['mismatches'] = sec.get('mismatches', 0)
             rep.add_failure('matching:%s' % prop,
@@ -545,6 +632,241 @@ def matching_search(rep, rng, tier, prop, decoders=None):
                             {'section': 'matching-records', 'case': case, 'log': log})
         else:
             sec['distinct_nontrivial'] += 1 if exp else 0
+
+
+def matching_stream_check(case, log, prop):
+    """(parts of the traces the real pipeline emits, parts expected from the declaratively matched START/END pairs, exception)."""
+    outs, err, parser = run_traces(case)
+    expected = []
+    for i, (kind, name, tid, words) in enumerate(log):
+        if kind == 'N':
+            expected.append(None)
+            continue
+        if kind != 'E':
+            continue
+        j = None
+        for m in range(i - 1, -1, -1):
+            if log[m][1] == name and log[m][2] == tid and log[m][0] in 'SE':
+                j = m if log[m][0] == 'S' else None
+                break
+        if j is None:
+            continue
+        expected.append(isolated_text(name, log[j][3], words, tid, []))
+    # C09 looks at the call part only, C10 at the result part only
+    got = [prop_part(prop, hs_decode(o['text'])) for o in outs if o['name'] != 'MACH_SCHED']
+    exp = [prop_part(prop, e) for e in expected if e is not None]
+    return got, exp, err
+
+
+# ---------------------------------------------------------------------------------------------------------
+# "window-content independence" search (C09, C10): what else lies between a call's START and END may not change its text
+
+def nested_pool(rng, tid):
+    """One NONE-qualified record of EVERY code of the bundled table except VFS_LOOKUP (looked-up paths ARE part of a call's
+    text: the one kind of nested record a syscall decoder legitimately reads), same thread, pairwise distinct random words.
+    [[name, eid, qualifier, words], ...]"""
+    seen = set()
+    out = []
+    for eid in sorted(CODES):
+        if CODES[eid] == 'VFS_LOOKUP':
+            continue
+        words = []
+        while len(words) < 4:
+            w = rng.getrandbits(64)
+            if w not in seen and w > 0xffffffff:
+                seen.add(w)
+                words.append(w)
+        out.append([CODES[eid], eid, NONE, words])
+    return out
+
+
+def paired(nested):
+    """The same records as START/END pairs of their codes (the END with its own distinct words)."""
+    out = []
+    for name, eid, _q, words in nested:
+        out.append([name, eid, START, words])
+        out.append([name, eid, END, [w ^ 0x5a5a5a5a for w in words]])
+    return out
+
+
+def window_events(name, start, end, tid, lookups, nested):
+    eid = IDS[name]
+    evs = [from_kd_buf(impl.record_args(1, start, tid, eid | START))]
+    for i, (path, vn) in enumerate(lookups):
+        evs += [from_kd_buf(r) for r in D.lookup_events(path, vn, tid, 10 + 8 * i)]
+    for i, (_n, neid, q, words) in enumerate(nested):
+        evs.append(from_kd_buf(impl.record_args(1000 + i, words, tid, neid | q)))
+    evs.append(from_kd_buf(impl.record_args(10 ** 7, end, tid, eid | END)))
+    return evs
+
+
+def window_text(name, start, end, tid, lookups, nested, prebuilt=None):
+    """Text of the LAST trace of code `name` the real TracesParser delivers for START, lookups, nested records, END — the
+    call closed by the END (a nested record of the same code may deliver traces of its own before)."""
+    eid = IDS[name]
+    if prebuilt is None:
+        evs = window_events(name, start, end, tid, lookups, nested)
+    else:
+        bare = window_events(name, start, end, tid, lookups, [])
+        evs = bare[:-1] + prebuilt + bare[-1:]
+    parser = TracesParser(dict(CODES), {}, {})
+    for ev in evs[:-1]:
+        try:
+            parser.feed(ev)
+        except Exception:                 # a nested record its own decoder cannot render: the record is still in the windows
+            pass
+    try:
+        t = parser.feed(evs[-1])
+        return '!nothing-delivered' if t is None else str(t)
+    except Exception as e:
+        return '!' + core.err_name(e)
+
+
+def minimise_nested(nested, fails, budget=60):
+    """A small sub-list of the nested records that still changes the text: halving, then dropping single records."""
+    cur = list(nested)
+    while len(cur) > 1 and budget > 0:
+        half = len(cur) // 2
+        budget -= 2
+        if fails(cur[:half]):
+            cur = cur[:half]
+        elif fails(cur[half:]):
+            cur = cur[half:]
+        else:
+            break
+    i = 0
+    while i < len(cur) and len(cur) > 1 and budget > 0:
+        budget -= 1
+        cand = cur[:i] + cur[i + 1:]
+        if fails(cand):
+            cur = cand
+        else:
+            i += 1
+    return cur
+
+
+WINDOW_ENDS = ([0, 0x51f3, 0x6a2d, 0x7b1c], [13, 0x51f3, 0x6a2d, 0x7b1c])
+FALLBACK_STARTS = ([3, 0x40087468, 0x7000, 5], [3, 0x20007401, 0x7000, 5], [3, 0x80047601, 0x7000, 5], [3, 0xc0206911, 0x7000, 5],
+                   [3, 0, 0, 0], [1, 1, 1, 1])
+
+
+def window_content_search(rep, rng, tier, prop, decoders):
+    """For every decoder of `decoders`: the text of the call [START, lookups, <a record of every other code>, END] delivered by
+    the real TracesParser must read — in the part the property speaks about — like the call [START, lookups, END]."""
+    sec = rep.section('window-content')
+    sec['rule'] = ('failing-input search on the real code: every registered decoder of the property (%d, translated or not) on '
+                   'in-domain START words: ONE window START + its lookups + a NONE-qualified record of EVERY code of the bundled '
+                   'table except VFS_LOOKUP (%d records, same thread, pairwise distinct random words) + END through the real '
+                   'TracesParser.feed; the %s part must equal that of the bare START + lookups + END window (END with error word '
+                   '0 and with error word 13); for a sample (all decoders '
+                   'in the thorough tier) also with every nested record as a START/END pair of its code and as an ALL-qualified record; a difference is bisected '
+                   'down to the nested record(s) that cause it' % (len(decoders), len(CODES) - 1,
+                                                                  'call' if prop == 'C09' else 'result'))
+    tid = 0x1c5f
+    pool = nested_pool(rng, tid)
+    pool_events = [from_kd_buf(impl.record_args(1000 + i, w, tid, eid | q)) for i, (_n, eid, q, w) in enumerate(pool)]
+    pairs = paired(pool)
+    pair_events = [from_kd_buf(impl.record_args(1000 + i, w, tid, eid | q)) for i, (_n, eid, q, w) in enumerate(pairs)]
+    alls = [[n, eid, ALL, [w ^ 0x3c3c3c3c for w in ws]] for n, eid, _q, ws in pool]
+    all_events = [from_kd_buf(impl.record_args(1000 + i, w, tid, eid | q)) for i, (_n, eid, q, w) in enumerate(alls)]
+    wide = tier != 'quick'
+    sample = set(decoders if wide else rng.sample(decoders, min(24, len(decoders))))
+    skipped = 0
+    failing = set()
+    for di, name in enumerate(decoders):
+        start = good_args(name)
+        if start is None:                  # packed request words (ioctl): a few shapes the generic search does not try
+            start = next((a for a in FALLBACK_STARTS
+                          if not window_text(name, a, WINDOW_ENDS[0], tid, STD_LOOKUPS, []).startswith('!')), None)
+        if start is None:
+            skipped += 1
+            continue
+        ends = WINDOW_ENDS
+        found = False
+        for end in ends:
+            bare = window_text(name, start, end, tid, STD_LOOKUPS, [])
+            if bare.startswith('!'):
+                skipped += 1
+                continue
+            for kind, nested, prebuilt in (('single', pool, pool_events), ('paired', pairs, pair_events),
+                                           ('all-qualified', alls, all_events)):
+                if kind != 'single' and name not in sample:
+                    continue
+                if kind == 'paired':         # not the code's own START/END pair: a re-START of the call is another claim (C04)
+                    keep = [i for i, x in enumerate(nested) if x[1] != IDS[name]]
+                    nested, prebuilt = [nested[i] for i in keep], [prebuilt[i] for i in keep]
+                sec['cases'] += 1
+                full = window_text(name, start, end, tid, STD_LOOKUPS, nested, prebuilt)
+                if prop_part(prop, full) == prop_part(prop, bare):
+                    sec['distinct_nontrivial'] += 1
+                    continue
+                failing.add(name)
+                if found or len(failing) > 6:      # the first few failing decoders are minimised and reported, the rest counted
+                    continue
+                found = True
+
+                def fails(sub):
+                    return prop_part(prop, window_text(name, start, end, tid, STD_LOOKUPS, sub)) != prop_part(prop, bare)
+                small = minimise_nested(nested, fails)
+                text = window_text(name, start, end, tid, STD_LOOKUPS, small)
+                rep.add_failure('window:%s:%s:nested-record-changes-text' % (prop, name),
+                                '%s with START words %s and END words %s reads %r; with %s between START and END it reads %r: the '
+                                '%s part changed' % (name, start, end, bare,
+                                                     ', '.join('a %s record of %s (words %s)'
+                                                               % ({0: 'NONE', 1: 'START', 2: 'END', 3: 'ALL'}[q], n, w)
+                                                               for n, _e, q, w in small[:4])
+                                                     + (' ... (%d records)' % len(small) if len(small) > 4 else ''),
+                                                     text, 'call' if prop == 'C09' else 'result'),
+                                {'section': 'window-content', 'decoder': name, 'start': start, 'end': end, 'tid': tid,
+                                 'lookups': STD_LOOKUPS, 'nested': small, 'bare': bare, 'with': text})
+    sec['dist'] = {'decoders': len(decoders), 'no-in-domain-window-found': skipped, 'nested-records': len(pool),
+                   'with-paired-nested-records': len(sample), 'decoders-whose-text-changed': len(failing)}
+
+
+def replay_search(rp, prop, path):
+    """Replay of a failure recorded by `matching_search` / `window_content_search`; returns the exit code, or None when the
+    replay record belongs to another section."""
+    sec = rp.get('section')
+    if sec == 'window-content':
+        name, start, end, tid, lookups, nested = (rp[k] for k in ('decoder', 'start', 'end', 'tid', 'lookups', 'nested'))
+        bare = window_text(name, start, end, tid, lookups, [])
+        full = window_text(name, start, end, tid, lookups, nested)
+        print('decoder:', name, ' START words:', start, ' END words:', end, ' thread:', tid, ' lookups:', lookups)
+        for n, eid, q, w in nested:
+            print('nested record: %s (%#x) qualifier %d words %s' % (n, eid, q, w))
+        print('bare window  [START, lookups, END]        :', bare)
+        print('whole window [START, lookups, nested, END]:', full)
+        if prop_part(prop, bare) != prop_part(prop, full):
+            print('oracle: window:%s:%s:nested-record-changes-text - the %s part %r became %r'
+                  % (prop, name, 'call' if prop == 'C09' else 'result', prop_part(prop, bare), prop_part(prop, full)))
+            print(f'VIOLATION property={prop} replay={path}')
+            return 1
+        print('oracle: property holds on this input')
+        return 0
+    if sec == 'matching-records' and rp.get('kind') == 'long-window':
+        args = [rp[k] for k in ('decoder', 'start', 'end', 'tid', 'lookups', 'nested', 'layout')]
+        print('decoder: %s  START words: %s  END words: %s  thread: %s  lookups: %s  nested records: %d (lookups %s)' % tuple(args))
+        why = long_window_check(prop, *args)
+        if why:
+            print('oracle: matching:%s:long-window - %s' % (prop, why))
+            print(f'VIOLATION property={prop} replay={path}')
+            return 1
+        print('oracle: property holds on this input')
+        return 0
+    if sec == 'matching-records' and 'log' in rp:
+        log = [tuple(x) for x in rp['log']]
+        got, exp, err = matching_stream_check(rp['case'], log, prop)
+        for k, nm, t, w in log:
+            print('   %s %s tid=%s words=%s' % ({'S': 'START', 'E': 'END  ', 'N': 'NONE '}[k], nm, t, w))
+        print('traces  :', got, ' exception:', err)
+        print('expected:', exp)
+        if got != exp or err != '-':
+            print('oracle: matching:%s - the traces are not those of the matching START/END pairs' % prop)
+            print(f'VIOLATION property={prop} replay={path}')
+            return 1
+        print('oracle: property holds on this input')
+        return 0
+    return None
 
 
 def hs_decode(txt):
